@@ -14,6 +14,7 @@ import random
 from scen import Scn
 import scenario_common as sc
 import mcrapid
+import forced
 
 LIMIT = 6 * 1024 * 1024 + 100
 KINDS = ["ok", "ok", "error", "oversize", "timeout", "exit", "abort", "repoll", "answered-timeout", "upper-first"]
@@ -247,6 +248,9 @@ def run(ctx):
     # E1: the property predicates as invariants of the composite (spec/MC_Rapid.tla)
     mcrapid.check(ctx, ['OkHasBody', 'StreamOwnerIsReserver', 'NoGhostInvoke'])
     ctx.assumptions += sc.ASSUME
+    # forced schedules: a completion message that arrives after its invocation timed out, during the next one - the next
+    # caller gets the answer posted for its own event
+    sc.run_families(ctx, forced.scenarios('c01', ('late-done-ok', 'late-done-fail')), "forced-schedule")
     sc.run_families(ctx, scenarios(ctx) + [slow_teardown("c01-slowtd"), aborted_upload("c01-abort1", 65536)]
                     + ([] if ctx.quick else [aborted_upload("c01-abort2", 2), aborted_upload("c01-abort3", 3 * 1024 * 1024)]), "roundtrip")
     # the same histories through the real HTTP front end (cmd/aws-lambda-rie InvokeHandler), validated against
